@@ -469,6 +469,16 @@ func TestC08(t *testing.T) {
 				for i := 0; i < k; i++ {
 					fmt.Fprintf(&pb, "%simport m%d \"fmt\"\n", pfx, i)
 				}
+				// a last import that settles the matter late: the file does
+				// not have it, or has it under a name the metavariable is
+				// no longer free to take
+				last := rapid.SampledFrom([]string{"", "", "absent", "conflict"}).Draw(rt, "lastImport")
+				switch last {
+				case "absent":
+					fmt.Fprintf(&pb, "%simport \"example.com/absent\"\n", pfx)
+				case "conflict":
+					fmt.Fprintf(&pb, "%simport m0 \"os\"\n", pfx)
+				}
 				pb.WriteString("\n-nomatch(1")
 				for i := 0; i < used; i++ {
 					fmt.Fprintf(&pb, ", m%d.X", i)
@@ -477,6 +487,9 @@ func TestC08(t *testing.T) {
 				fb.WriteString("package p\n\nimport (\n")
 				for i := 0; i < n; i++ {
 					fmt.Fprintf(&fb, "\tf%d \"fmt\"\n", i)
+				}
+				if last == "conflict" {
+					fb.WriteString("\tzz \"os\"\n")
 				}
 				fb.WriteString(")\n\nfunc f() {\n")
 				for i := 0; i < n; i++ {
